@@ -13,7 +13,9 @@ EcBases == {"p256a", "p384a", "p521a", "k256a", "bp256a", "bp384a", "bp512a", "p
 OkpBases == {"ed25519a", "ed448a"}
 
 Oct(n) == IF n = 0 THEN [OctKey(0, "a", NONE, NONE) EXCEPT !.bad = 1] ELSE OctKey(n, "a", NONE, NONE)
-Pairs == { <<Oct(n), a>> : n \in OctLens, a \in HSAlgs }
+\* the same lengths with the algorithm named by the JWK itself (alg attribute), around each floor
+OctAttr == { <<OctKey(n, "a", a, NONE), a>> : n \in {1, 16, 31, 32, 47, 48, 63, 64, 100}, a \in HSAlgs }
+Pairs == { <<Oct(n), a>> : n \in OctLens, a \in HSAlgs } \cup OctAttr
     \cup { <<AsymKey(b, 1, NONE, NONE), a>> : b \in RsaBases, a \in RsaAlgs }
     \cup { <<AsymKey(b, 1, NONE, NONE), a>> : b \in EcBases, a \in ESAlgs }
     \cup { <<AsymKey(b, 1, NONE, NONE), "EdDSA">> : b \in OkpBases }
@@ -22,8 +24,8 @@ Pub(k) == IF k.kty = "oct" THEN k ELSE [k EXCEPT !.priv = 0]
 Pm == << StrM("sub", "x") >>
 Script(k, a, p) ==
   << OpsOp(p), LoadOp(<<k, Pub(k)>>),
-     BNewOp, BSetKeyOp(a, 0), GenerateOp(0),
-     CNewOp, CSetKeyOp(a, 1), VerifyOp([src |-> "slot", slot |-> 0]),
+     BNewOp, BSetKeyOp(IF k.alg = NONE THEN a ELSE "none", 0), GenerateOp(0),
+     CNewOp, CSetKeyOp(IF k.alg = NONE THEN a ELSE "none", 1), VerifyOp([src |-> "slot", slot |-> 0]),
      VerifyOp(Tok(a, <<>>, Pm, Sig("valid", a, Pub(k)))) >>
 \* an algorithm with a key that is not of its kind at all (setkey admits an explicit algorithm with any key
 \* that has no alg): in particular EdDSA with a key that is neither Ed25519 nor Ed448.  The token offered
